@@ -114,6 +114,8 @@ pub struct Scope {
     type_aliases: IndexMap<String, u32>,
     /// The map of resource names to their encoded indexes.
     resources: IndexMap<String, u32>,
+    /// The types this scope's interface uses from other interfaces.
+    used_types: HashSet<Type>,
     /// The encodable for this scope.
     encodable: Encodable,
 }
@@ -295,7 +297,15 @@ impl<'a> TypeEncoder<'a> {
             DefinedType::Alias(ValueType::Primitive(ty)) => Self::primitive(state, *ty),
             DefinedType::Alias(ValueType::Borrow(id)) => self.borrow(state, *id),
             DefinedType::Alias(ValueType::Own(id)) => self.own(state, *id),
-            DefinedType::Alias(ValueType::Defined(id)) => self.defined(state, *id),
+            DefinedType::Alias(ValueType::Defined(id)) => {
+                // A used type belongs to another interface: an alias of it refers
+                // to the used type itself, not to a structural copy of it.
+                let used = Type::Value(ValueType::Defined(*id));
+                match state.current.type_indexes.get(&used) {
+                    Some(index) if state.current.used_types.contains(&used) => *index,
+                    _ => self.defined(state, *id),
+                }
+            }
             DefinedType::Stream(ty) => self.stream(state, *ty),
             DefinedType::Future(ty) => self.future(state, *ty),
         };
@@ -357,6 +367,14 @@ impl<'a> TypeEncoder<'a> {
         // Encode any required aliases
         self.use_aliases(state, &interface.uses, &interface.exports);
         state.push(Encodable::Instance(InstanceType::default()));
+        state.current.used_types = interface
+            .uses
+            .keys()
+            .filter_map(|name| match interface.exports.get(name) {
+                Some(ItemKind::Type(ty)) => Some(*ty),
+                _ => None,
+            })
+            .collect();
 
         // Otherwise, export all exports
         for (name, kind) in &interface.exports {
